@@ -547,10 +547,17 @@ fn judge_one(cx: &Ctx, spec: &Spec, info: &ImgInfo, ms: &MutSpec, stats: &mut Mu
                         let cspec = Spec { prop: prop.to_string(), run_seed: *len as u64, cfg: cfg.clone(), ops, sched: crate::ops::Sched::Default, faults: vec![], flush_batch: 1024, lower_term_reappend: false };
                         let or = crate::exec::Oracles { prop: prop.to_string(), model_eq: true, restart_eq: true, ..Default::default() };
                         // on the very instance that performed the recovery
-                        let (_r2, kept) = eval_image(&img, &cfg, cx.img_dir, true);
+                        // cache pressure is C07's business: the continuation runs with large caches
+                        let mut ccfg = cfg.clone();
+                        ccfg.log_cache_max_items = None;
+                        ccfg.log_cache_capacity = None;
+                        let (_r2, kept) = eval_image(&img, &ccfg, cx.img_dir, true);
                         let Some(kept) = kept else { return None };
                         let cont = crate::exec::continue_on(kept, &cspec, &or, cx.img_dir, want.clone());
-                        if let Some(v) = cont.violations.into_iter().next() {
+                        if let Some(mut v) = cont.violations.into_iter().next() {
+                            if cx.out.family_lower {
+                                v.class = v.class.replace("monotone-family", "lower-term-family");
+                            }
                             return Some(viol(prop, format!("{what}:continuation:{}", v.class), format!("after recovering from {:?}: op #{}: {}", ms.mutation, v.op_index, v.detail)));
                         }
                     }
